@@ -11,7 +11,7 @@ with contextlib.redirect_stdout(io.StringIO()):
 from props.c02 import FakePyfftw
 
 PROPERTY = "C01"
-FUNCTIONS = ["Rvectors.__init__/set_Rvec/set_fft_q_to_R/q_to_R/get_remapper_XX_from_grid_to_list_R/remap_XX_from_grid_to_list_R/remap_XX_R/reverseR/conj_XX_R/iR/set_fft_R_to_k/R_to_k",
+FUNCTIONS = ["Rvectors.exclude_zeros (do_ws_dist path with matrices of different range)", "Rvectors.__init__/set_Rvec/set_fft_q_to_R/q_to_R/get_remapper_XX_from_grid_to_list_R/remap_XX_from_grid_to_list_R/remap_XX_R/reverseR/conj_XX_R/iR/set_fft_R_to_k/R_to_k",
              "WignerSeitz.__init__/__call__", "fourier.fft.execute_fft/fft_np/fft_W, FFT_R_to_k (k-list mode)"]
 BOUNDS = dict(quick=dict(lattices="cubic, tetragonal, hexagonal, fcc, bcc, monoclinic, 1 seeded rational triclinic", meshes="1x1x2 2x1x1 2x2x1 3x1x1 2x2x2 (<= 8 points) in 3 orders (natural, reversed, seeded shuffle)",
                          centres="nb=1..2: origin, generic, on a Wigner-Seitz face (1/2,0,0), outside the home cell, coinciding; within and just outside the tolerance of a face / edge / corner of the supercell Wigner-Seitz cell; plus centres-free (no shifts)",
@@ -24,7 +24,7 @@ EXPLANATION = ("The real Rvectors / WignerSeitz code runs with concrete (rationa
 ASSUMPTIONS = ["Gamma-centred complete mesh (documented precondition; the code raises otherwise)", "|X_q| components <= 1 (identities are homogeneous)", "Hermitian X_q in the band indices"]
 OUTSIDE = ["symbolic (continuous) variation of the Wannier centres / lattice: geometry is enumerated, not quantified (the Wigner-Seitz search over 343 candidates with symbolic norms did not "
            "finish within the budget, see DESIGN)", "meshes with more than 12 points", "rounding inside the FFT libraries", "get_system_w90 (needs checkpoint files)"]
-STUBS = ["np.fft -> DFT by definition", "pyfftw -> DFT by definition (FakePyfftw of the C02 harness)"]
+STUBS = ["np.abs(X) > tol in exclude_zeros answered structurally for symbolic blocks (generic data assumed not accidentally below 1e-8)", "np.fft -> DFT by definition", "pyfftw -> DFT by definition (FakePyfftw of the C02 harness)"]
 TOL = 1e-9
 
 LATTICES = dict(
@@ -93,6 +93,17 @@ class ComplexLooking(SymArray):
         return _ComplexDtype()
 
 
+class _Mag:
+    def __init__(s, X):
+        s.X = np.asarray(X, dtype=object)
+
+    def __gt__(s, c):
+        return np.array([not SymC.of(v).iszero() for v in s.X.flat], dtype=bool).reshape(s.X.shape)
+
+    def reshape(s, *a):
+        return _Mag(s.X.reshape(*a))
+
+
 class RVnp(NpProxy):
     """np for fourier/rvectors.py: only the complex work arrays become symbolic (object) arrays; the integer / float geometry stays real numpy"""
 
@@ -113,6 +124,13 @@ class RVnp(NpProxy):
 
     def unique(s, *a, **k):
         return np.unique(*a, **k)
+
+    def abs(s, x):
+        """|X| of a symbolic block is only ever compared with a zero-tolerance (exclude_zeros): answered structurally — a block whose entries are all the
+        exact zero polynomial is 'below', anything else 'above' (assumption: symbolic data are generic, not accidentally below 1e-8)"""
+        if is_sym(x):
+            return _Mag(x)
+        return np.abs(x)
 
     def allclose(s, a, b, rtol=1e-5, atol=1e-8, **k):
         """the code's internal consistency asserts on symbolic work arrays: decided for all data at once (|a-b| <= atol for |atoms|<=1)"""
@@ -211,9 +229,47 @@ def case_remap(rec, latt, mp, cen, nb, seed):
     rec.explore(body, [])
 
 
+def case_ws_dist_two_matrices(rec, latt, mp, nb, short):
+    """the do_ws_dist path with matrices of different range: remap_XX_R for each matrix, then exclude_zeros on the whole dictionary
+    (what System_R.do_ws_dist does); the matrices at the mesh points must not change and no matrix may lose R-vectors it needs"""
+    setup()
+    lattice = LATTICES[latt]
+    centres = np.array(CENTRES["generic2"], dtype=float)[:nb]
+    iR_old = np.array([(i, j, k) for i in range(mp[0]) for j in range(mp[1]) for k in range(mp[2])])
+    H = symvec("H", (len(iR_old), nb, nb), real=False, lo=-1, hi=1)
+    S = np.empty((len(iR_old), nb, nb, 3), dtype=object)
+    S[...] = SymC.of(0)
+    Sat = symvec("S", (nb, nb, 3), real=False, lo=-1, hi=1)
+    keepR = [0] if short == "onsite" else [0, len(iR_old) - 1]
+    for ir in keepR:
+        S[ir] = Sat if ir == 0 else Sat * SymC.of(0.5)
+    S = S.view(SymArray)
+    kpt = mesh_points(mp, "natural", 0)
+
+    def body(rec):
+        rec.witness = lambda env: dict(test="wsdist2", latt=latt, mp=mp, nb=nb, short=short, H=env.arr(H), S=env.arr(Sat))
+        with contextlib.redirect_stdout(io.StringIO()):
+            rv = RV.Rvectors(lattice=lattice, shifts_left_red=centres)
+            rv.set_Rvec(np.array(mp), ws_tolerance=1e-5)
+            XX = dict(Ham=rv.remap_XX_R(H.copy(), iRvec_old=iR_old), SS=rv.remap_XX_R(S.copy(), iRvec_old=iR_old))
+            XX2, rv2 = rv.exclude_zeros(XX)
+        ph_old = lift(np.exp(2j * np.pi * kpt.dot(iR_old.T)))
+        ph_new = lift(np.exp(2j * np.pi * kpt.dot(rv2.iRvec.T)))
+        for key_, X0 in (("Ham", H), ("SS", S)):
+            rec.concrete(f"{key_}: one block per retained R-vector", len(XX2[key_]) == len(rv2.iRvec), key="exclude_zeros: matrices and R-vector list have different lengths")
+            a = np.tensordot(ph_old, np.asarray(X0), axes=(1, 0))
+            b = np.tensordot(ph_new, np.asarray(XX2[key_]), axes=(1, 0))
+            rec.close(f"{key_}: matrices at the mesh points unchanged by re-mapping + exclude_zeros", b, a, TOL, bound=1.0,
+                      key="do_ws_dist path (remap_XX_R + exclude_zeros) changes a matrix at the mesh points")
+    rec.explore(body, [])
+
+
 def cases(tier, seed):
     q = tier == "quick"
     out = []
+    for latt, mp in (("cubic", (2, 2, 1)), ("hexagonal", (3, 1, 1)), ("fcc", (2, 2, 2))):
+        for short in ("onsite", "two"):
+            out.append(Case(f"ws_dist two matrices {latt} mp={mp} short-ranged SS={short}", case_ws_dist_two_matrices, dict(latt=latt, mp=mp, nb=2, short=short), timeout=600))
     latts = list(LATTICES) + [f"tri{seed}"] + ([] if q else [f"tri{seed + 1}", f"tri{seed + 2}", f"tri{seed + 3}"])
     meshes = MESHES_Q if q else MESHES_T
     orders = ["natural", "reversed", "shuffle0"] + ([] if q else ["shuffle1", "shuffle2"])
@@ -264,10 +320,35 @@ def replay(rec):
     lattice = LATTICES[w["latt"]] if w["latt"] in LATTICES else triclinic(int(w["latt"][3:]))
     mp = tuple(w["mp"])
     nb = w["nb"]
-    X = unarr(w["X"]).astype(complex)
     rng = np.random.RandomState(5)
-    if np.abs(X).max() == 0:
-        X = rng.uniform(-1, 1, X.shape) + 1j * rng.uniform(-1, 1, X.shape)
+    if "X" in w:
+        X = unarr(w["X"]).astype(complex)
+        if np.abs(X).max() == 0:
+            X = rng.uniform(-1, 1, X.shape) + 1j * rng.uniform(-1, 1, X.shape)
+    if w.get("test") == "wsdist2":
+        centres = np.array(CENTRES["generic2"], dtype=float)[:nb]
+        iR_old = np.array([(i, j, k) for i in range(mp[0]) for j in range(mp[1]) for k in range(mp[2])])
+        H = unarr(w["H"]).astype(complex)
+        Sat = unarr(w["S"]).astype(complex)
+        if np.abs(H).max() == 0:
+            H = rng.uniform(-1, 1, H.shape) + 1j * rng.uniform(-1, 1, H.shape)
+        if np.abs(Sat).max() == 0:
+            Sat = rng.uniform(-1, 1, Sat.shape) + 1j * rng.uniform(-1, 1, Sat.shape)
+        S = np.zeros((len(iR_old), nb, nb, 3), dtype=complex)
+        for ir in ([0] if w["short"] == "onsite" else [0, len(iR_old) - 1]):
+            S[ir] = Sat if ir == 0 else Sat * 0.5
+        kpt = mesh_points(mp, "natural", 0)
+        with contextlib.redirect_stdout(io.StringIO()):
+            rv = RV.Rvectors(lattice=lattice, shifts_left_red=centres)
+            rv.set_Rvec(np.array(mp), ws_tolerance=1e-5)
+            XX = dict(Ham=rv.remap_XX_R(H.copy(), iRvec_old=iR_old), SS=rv.remap_XX_R(S.copy(), iRvec_old=iR_old))
+            XX2, rv2 = rv.exclude_zeros(XX)
+        e = 0.0
+        for key_, X0 in (("Ham", H), ("SS", S)):
+            a = np.tensordot(np.exp(2j * np.pi * kpt.dot(iR_old.T)), X0, axes=(1, 0))
+            b = np.tensordot(np.exp(2j * np.pi * kpt.dot(rv2.iRvec.T)), XX2[key_], axes=(1, 0))
+            e = max(e, np.abs(a - b).max())
+        return bool(e > 1e-8), f"do_ws_dist path with two matrices: max change at mesh points {e:.2e}"
     if w.get("test") == "remap":
         centres = np.array(CENTRES[w["cen"]], dtype=float)[:nb]
         iR_old = np.array([(i, j, k) for i in range(mp[0]) for j in range(mp[1]) for k in range(mp[2])])
